@@ -67,6 +67,40 @@ Theorem C02_congruence_immediately_after_union : forall a b s u s',
 Proof. exact union_congruence. Qed.
 Print Assumptions C02_congruence_immediately_after_union.
 
+(* third session (EGraph/SelfSym*.v, eight files): `ss_ok` is PROVED for every state in which an operation has returned
+   (invariant `sse` with the pending / in-flight exemption, plus source coherence `srcx`, through move_to, shrink_slots,
+   handle_pending incl. determine_self_symmetries, rebuild, insertion and union).  Hence the congruence clause holds for
+   every reachable state with no checked premise: represented nodes with pairwise-equal children are equal, terms
+   that are congruent subterm by subterm are equal, and immediately after a union the two united invocations can be
+   exchanged in any represented node.  `exemption_needed` (SelfSymCheck.v) shows that without the final
+   determine_self_symmetries the invariant fails. *)
+From SE Require Import EGraph.ModelMachine EGraph.Model9 EGraph.KidEqFacts EGraph.SelfSymFacts.
+
+Theorem C02_self_symmetries_complete_reachable : forall terms ops hs s, ops_pre terms ops [] empty_egraph ->
+  run_ops terms ops [] empty_egraph = Ok (hs, s) -> ss_ok s.
+Proof. exact reachable_ss_ok. Qed.
+Print Assumptions C02_self_symmetries_complete_reachable.
+
+Theorem C02_congruence_reachable : forall terms ops hs s n l x1 x2, ops_pre terms ops [] empty_egraph ->
+  run_ops terms ops [] empty_egraph = Ok (hs, s) -> List.NoDup (RenameFacts.binders n) -> List.Forall2 (kid_eq s) (app_occ n) l ->
+  eg_lookup s n = Ok (Some x1) -> eg_lookup s (set_apps n l) = Ok (Some x2) -> eg_eq s x1 x2 = Ok true.
+Proof. exact node_congruence_reachable. Qed.
+Print Assumptions C02_congruence_reachable.
+
+Theorem C02_term_congruence_reachable : forall terms ops hs s t1 t2 x1 x2, ops_pre terms ops [] empty_egraph ->
+  run_ops terms ops [] empty_egraph = Ok (hs, s) -> tcong s t1 t2 ->
+  lookup_rec s t1 = Ok (Some x1) -> lookup_rec s t2 = Ok (Some x2) -> eg_eq s x1 x2 = Ok true.
+Proof. exact term_congruence_reachable. Qed.
+Print Assumptions C02_term_congruence_reachable.
+
+Theorem C02_congruence_immediately_after_union_reachable : forall terms ops hs s a b u s', ops_pre terms ops [] empty_egraph ->
+  run_ops terms ops [] empty_egraph = Ok (hs, s) -> List.In a hs -> List.In b hs -> eg_union a b s = Ok (u, s') ->
+  inv3 s' /\ hc_ok s' /\ pending s' = [] /\ ss_ok s' /\ eg_eq s' a b = Ok true /\
+  forall n l x1 x2, List.NoDup (RenameFacts.binders n) -> List.Forall (covers s') (app_occ n) -> List.Forall2 (swap_ab a b) (app_occ n) l ->
+    eg_lookup s' n = Ok (Some x1) -> eg_lookup s' (set_apps n l) = Ok (Some x2) -> eg_eq s' x1 x2 = Ok true.
+Proof. exact union_congruence_reachable. Qed.
+Print Assumptions C02_congruence_immediately_after_union_reachable.
+
 (* the statement that is NOT proved: the model-level completeness of the e-graph *)
 Definition C02_full : Prop :=
   forall (eq_reported : equations -> cterm -> cterm -> bool) E s t,
